@@ -459,7 +459,7 @@ def later_reads_see_writes(ops, impl):
 # a syntactic SUFFICIENT condition for "this invocation returns Ok", evaluated on the op text and on which
 # contracts the implementation itself listed in its last dump.
 
-_PLAIN_OK = ("rm", "rd", "rng", "rngk", "data", "qbal", "qall", "qsup", "qraw", "qinfo", "qcode")
+_PLAIN_OK = ("rm", "rd", "rng", "rngk", "rngv", "data", "qbal", "qall", "qsup", "qraw", "qinfo", "qcode")
 
 
 def contracts_in_dump(dump):
